@@ -235,10 +235,42 @@ class _SubInterrupt(KeyboardInterrupt):
     pass
 
 
+def rebuild_model(feature, order):
+    """LIBRARY USE: the same model assembled by hand through the public constructors / add_* methods instead of by
+    the parser. order "bottom-up": every rule gets its scenarios FIRST (constructor argument), then its own
+    background (Rule.add_background: 'normally background is added before scenarios'), then it is added to the
+    feature; "bottom-up-late": the rule is added to the feature before its own background is attached.
+    The Scenario / ScenarioOutline / Background / Step objects of the parsed model are re-used (nothing has run yet)."""
+    from behave.model import Feature, Rule
+    nf = Feature(feature.filename, feature.line, feature.keyword, feature.name, tags=list(feature.tags),
+                 description=list(feature.description), language=feature.language)
+    nf.parser = feature.parser
+    if feature.background is not None:
+        nf.add_background(feature.background)
+    for item in feature.run_items:
+        if isinstance(item, Rule):
+            own = item.background if (item.background is not None and item.background.steps) else None
+            if own is not None:
+                own.inherited_background = None
+            nr = Rule(item.filename, item.line, item.keyword, item.name, tags=list(item.tags),
+                      description=list(item.description), scenarios=list(item.run_items))
+            if order == "bottom-up-late":
+                nf.add_rule(nr)
+                if own is not None:
+                    nr.add_background(own)
+            else:
+                if own is not None:
+                    nr.add_background(own, inherited=nf.background)
+                nf.add_rule(nr)
+        else:
+            nf.add_scenario(item)
+    return nf
+
+
 def run_case(prog, cfg=None, faults=None, cleanups=None, hooks=False, record_events=False,
              formatters=None, keep_model=False, reporters=None, async_steps=False, texts=None,
              step_extra=None, probe_status=False, second_run=False, second_cfg=None, reset_between=True,
-             after_run=None):
+             after_run=None, rebuild=None):
     """faults: {k: "exc"|"assert"|"kbi"|"skip"|"skipf"} k-th hook invocation raises / interrupts / excludes.
     cleanups: {trigger: [(cid, raising, layer)]}, trigger = ("hook", name, path|None) | ("step", path, idx)
     formatters: callable(config, o2p) -> list of formatter objects (in addition to the recorder)
@@ -268,6 +300,8 @@ def run_case(prog, cfg=None, faults=None, cleanups=None, hooks=False, record_eve
                 texts.append(t)
                 metas.append(meta)
         feats = [m["parse_feature"](t, filename="f%d.feature" % fi) for fi, t in enumerate(texts)]
+        if rebuild:
+            feats = [rebuild_model(f_, rebuild) for f_ in feats]
         o2p, p2o = map_model(prog, feats)
         faults = faults or {}
         cleanups = cleanups or {}
